@@ -7,6 +7,7 @@ drv_serve ops (one line each):
                                  with the same observed result.  Tokens (no blanks inside):
       call:<t>:<tmo|n>:<seq>     thread t took seq from the counter for a call with timeout tmo
       bg:<t>   stop:<t>          thread t becomes / stops being a background serving thread
+      poll:<t>:<d>:<tmax>        thread t entered conn.poll_all(d); its Timeout's tmax
       peer:<seq>:<0|1>:<val>     the peer answered seq (reply / exception) with payload val
       tick:<d>                   virtual time advanced by d
       eof                        the peer closed the stream
@@ -27,9 +28,9 @@ def showOptT (o : Option Nat) : String := match o with | none => "inf" | some d 
 
 def pcName : PC → String
   | .idle => "idle" | .c1 => "c1" | .c2 => "c2" | .c3 => "c3" | .w0 => "w0" | .s0 => "s0" | .s1 => "s1"
-  | .s2 => "s2" | .s2w => "s2w" | .zz => "zz" | .s2r => "s2r" | .s3 => "s3" | .p0 => "p0" | .x0 => "x0" | .r0 => "r0"
+  | .s2 => "s2" | .s2w => "s2w" | .s2f => "s2f" | .zz => "zz" | .s2r => "s2r" | .s3 => "s3" | .p0 => "p0" | .x0 => "x0" | .r0 => "r0"
   | .n0 => "n0" | .n1 => "n1" | .n2 => "n2" | .d0 => "d0" | .d1 => "d1" | .d2 => "d2" | .d3 => "d3"
-  | .d4 => "d4" | .d5 => "d5" | .w9 => "w9" | .w10 => "w10" | .b0 => "b0" | .bS => "bS"
+  | .d4 => "d4" | .d5 => "d5" | .w9 => "w9" | .w10 => "w10" | .b0 => "b0" | .bS => "bS" | .q1 => "q1"
 
 def insertSorted (x : Nat) : List Nat → List Nat
   | [] => [x]
@@ -48,10 +49,11 @@ def expect (s : St) (t : Tid) : String :=
   | .c2 => if s.closed then s!"c2:{l.seq}:closed" else s!"c2:{l.seq}"
   | .c3 => s!"c3:{showOptT (l.tmo.map (s.now + ·))}"
   | .w0 => if !(s.cells l.seq).ready && !expiredAt (s.cells l.seq).ttl s.now then "w0:loop" else "w0:exit"
-  | .s0 => s!"s0:{showOptT (if l.bg then some s.now else (s.cells l.seq).ttl)}"
+  | .s0 => s!"s0:{showOptT (if l.nowait then l.pdl else if l.bg then some s.now else (s.cells l.seq).ttl)}"
   | .s1 => "s1"
   | .s2 => if s.recvLock = none then "s2:ok" else "s2:fail"
   | .s2w => s!"s2w:{showOptT (l.dl.map (max s.now))}"
+  | .s2f => "s2f"
   | .zz => if t ∉ s.waiters then "zz:notified" else "zz:timeout"
   | .s2r => "s2r"
   | .s3 => "s3"
@@ -84,6 +86,7 @@ def expect (s : St) (t : Tid) : String :=
             (match (s.cells l.seq).obj with | none => "n" | some v => toString v)
   | .b0 => "b0"
   | .bS => "bS"
+  | .q1 => if expiredAt l.pdl s.now then "q1:exit" else "q1:loop"
 
 def showOutcome : Outcome → String
   | .timeout => "timeout"
@@ -115,6 +118,14 @@ def feed (a : Acc) (tok : String) : Except String Acc :=
       | some s' => .ok ({ a with s := s' }.noteTid t)
       | none => .error "bg-not-enabled"
     | none => .error "bad-op"
+  | ["poll", t, d, tmax] =>
+    match pNat t, pNat d, pNat tmax with
+    | some t, some d, some tmax =>
+      if a.s.now + d ≠ tmax then .error s!"poll:tmax={a.s.now + d}" else
+      match step a.s (.pollAll t d) with
+      | some s' => .ok ({ a with s := s' }.noteTid t)
+      | none => .error s!"poll-not-enabled pc={pcName (a.s.loc t).pc}"
+    | _, _, _ => .error "bad-op"
   | ["stop", t] =>
     match pNat t with
     | some t => match step a.s (.stop t) with
